@@ -15,7 +15,10 @@ from . import core
 from .core import Sim, Violation, HarnessError, mix
 
 EXIT_OK, EXIT_VIOLATION, EXIT_HARNESS = 0, 1, 2
-RUN_ALARM_S = int(os.environ.get("VERIF_RUN_ALARM", "60"))
+# per-run limit in CPU seconds of the worker process (not wall time: a loaded machine must not turn a long
+# run into a "hang"); a run that burns that much CPU without finishing is reported as 'unbounded'
+RUN_ALARM_S = int(os.environ.get("VERIF_RUN_ALARM", "120"))
+WATCHDOG_WALL_S = int(os.environ.get("VERIF_WATCHDOG_WALL", "1800"))
 
 
 class _Alarm(BaseException):
@@ -29,8 +32,9 @@ def _on_alarm(signum, frame):
 def _worker(modname, tier, vseed, phase_idx, phase, lo, hi):
     """Execute runs lo..hi-1 of one phase.  Runs in a forked worker process."""
     check = importlib.import_module(modname)
-    faulthandler.dump_traceback_later(max(120, RUN_ALARM_S * 3), exit=True)
-    signal.signal(signal.SIGALRM, _on_alarm)
+    limit = int(getattr(check, "RUN_CPU_LIMIT_S", {}).get(tier, RUN_ALARM_S))
+    faulthandler.dump_traceback_later(WATCHDOG_WALL_S, exit=True)
+    signal.signal(signal.SIGPROF, _on_alarm)
     res = {
         "runs": 0, "counts": Counter(), "faults": Counter(), "probes": Counter(),
         "classes": set(), "sim_s": 0.0, "violations": [], "errors": [], "sample": None,
@@ -42,33 +46,33 @@ def _worker(modname, tier, vseed, phase_idx, phase, lo, hi):
         seed = mix(vseed, check.ID, phase["name"], idx)
         sim = Sim(seed=seed, keep_events=False)
         # watchdog of last resort, re-armed for every run (SIGALRM below is the normal per-run limit)
-        faulthandler.dump_traceback_later(max(120, RUN_ALARM_S * 3), exit=True)
-        signal.alarm(RUN_ALARM_S)
+        faulthandler.dump_traceback_later(WATCHDOG_WALL_S, exit=True)
+        signal.setitimer(signal.ITIMER_PROF, limit)
         try:
             with core.quiet_stdout():
                 check.run_one(sim, dict(params, _idx=idx))
         except Violation as v:
-            signal.alarm(0)
+            signal.setitimer(signal.ITIMER_PROF, 0)
             res["violations"].append({
                 "phase": phase_idx, "idx": idx, "seed": seed, "sig": v.sig,
                 "message": v.message, "trace": sim.trace, "kinds": sim.kinds,
                 "override": v.override})
         except _Alarm:
-            signal.alarm(0)
-            v = Violation("unbounded", "wall-alarm:%s" % phase["name"],
-                          "run did not finish within %d s wall (hang)" % RUN_ALARM_S)
+            signal.setitimer(signal.ITIMER_PROF, 0)
+            v = Violation("unbounded", "cpu-limit:%s" % phase["name"],
+                          "run did not finish within %d s of CPU time (endless computation)" % limit)
             res["violations"].append({
                 "phase": phase_idx, "idx": idx, "seed": seed, "sig": v.sig,
                 "message": v.message, "trace": sim.trace, "kinds": sim.kinds,
                 "override": {}, "hang": True})
         except Exception as e:  # harness bug: never a pass, never a violation
-            signal.alarm(0)
+            signal.setitimer(signal.ITIMER_PROF, 0)
             res["errors"].append("phase=%s idx=%d seed=%d: %s" % (
                 phase["name"], idx, seed, core.tb_short(e, 8)))
             if len(res["errors"]) > 3:
                 break
         finally:
-            signal.alarm(0)
+            signal.setitimer(signal.ITIMER_PROF, 0)
         res["runs"] += 1
         res["counts"].update(sim.counts)
         res["faults"].update(sim.faults)
